@@ -1132,6 +1132,108 @@ def rule_sl_transpose(chk, prog):
 
 
 # ----------------------------------------------------------------------------
+# rule: parameter dependence of value and derivative agree
+# ----------------------------------------------------------------------------
+def param_attrs(fn, arrays, aliases):
+    """self attributes read by the routine, other than those used to index the array arguments"""
+    idx = set()
+    for arr in arrays:
+        for node, a in array_subscripts(fn, arr, aliases):
+            if a is not None:
+                idx.add(a)
+            else:
+                f = fancy_index(node.slice, fn, aliases)
+                if f:
+                    idx |= set(f)
+    reads = {}
+    for n in pf.walk_no_nested(fn):
+        if pf.is_self_attr(n) and isinstance(n.ctx, ast.Load):
+            p_ = pf.parent(n)
+            if isinstance(p_, ast.Call) and p_.func is n:
+                continue  # a method call, not a parameter
+            reads.setdefault(n.attr, n)
+    return {a: n for a, n in reads.items() if a not in idx}, idx
+
+
+def value_form(fn, y, x, aliases):
+    """canonical form of what fill_feat_ leaves in y (stores folded in order), raw features as atoms x:<attr>;
+    None when outside the sum-of-monomials fragment"""
+    def leaf(node):
+        if isinstance(node, ast.Subscript) and isinstance(node.value, ast.Name) and node.value.id == x:
+            a = idx_attr(node.slice, aliases)
+            if a is not None:
+                return Poly.name("x:" + a)
+        return None
+
+    ev = Evaluator(env={y: mono.Buf("y")}, leaf=leaf)
+    ev.run_function(fn)
+    val = None
+    for st in ev.stores:
+        if not (isinstance(st.target, mono.Buf) and st.target.role == "y"):
+            continue
+        if st.key != () or st.depth != 0 or not isinstance(st.value, Poly):
+            return None
+        try:
+            if st.op == "=":
+                val = st.value
+            elif val is None:
+                return None
+            elif st.op == "+=":
+                val = val + st.value
+            elif st.op == "-=":
+                val = val - st.value
+            elif st.op == "*=":
+                val = val * st.value
+            elif st.op == "/=":
+                val = val / st.value
+            else:
+                return None
+        except NotComparable:
+            return None
+    return val
+
+
+def rule_param_dependence(chk, prog):
+    mod = prog.module(TD)
+    for cname in registry_classes(mod):
+        cls = mod.cls(cname)
+        feat, der = map_routines(prog, mod, cls)
+        y, x = routine_params(feat, 2)
+        dfdx, dfdy, dx = routine_params(der, 3)
+        pf_, _ = param_attrs(feat, [x], index_aliases(feat))
+        pd_, _ = param_attrs(der, [dx, dfdx], index_aliases(der))
+        # attributes that are methods / properties of the class are not parameters
+        missing = sorted(a for a in pf_ if a not in pd_ and prog.find_method(mod, cls, a) is None)
+        if not missing:
+            chk.ok("param-dep", "%s: fill_deriv_ reads every parameter fill_feat_ reads (%s)" % (
+                cname, ", ".join(sorted(pf_)) or "none"), nontrivial=bool(pf_))
+            continue
+        val = value_form(feat, y, x, index_aliases(feat))
+        for a in missing:
+            inst = "%s: self.%s read by fill_feat_ only" % (cname, a)
+            if val is None:
+                chk.note("param-dep", "%s:%s" % (TD, cname), "self.%s is read by fill_feat_ only; the value is outside "
+                         "the monomial fragment, additivity not decided" % a)
+                chk.ok("param-dep", inst + " (not decided)", nontrivial=False)
+                continue
+            atom = ("n", "self." + a)
+            mixed = []
+            for m, c in val.terms.items():
+                t = Poly({m: c})
+                ats = t.atoms()
+                if atom in ats and any(b[0] == "n" and b[1].startswith("x:") for b in ats):
+                    mixed.append(t)
+            if not mixed:
+                chk.ok("param-dep", inst + ", where it is an additive constant")
+            else:
+                chk.violation("param-dep", TD, cname + ".fill_deriv_", "self.%s" % a, der.lineno,
+                              "fill_feat_ computes y = %s, in which self.%s multiplies / enters a term that depends on "
+                              "the raw features (%s), but fill_deriv_ never reads self.%s: the derivative of c*f(x) is "
+                              "c*f'(x), so the derivative cannot be the chain rule of the value for every value of "
+                              "self.%s" % (mono.show(val)[:120], a, mono.show(mixed[0])[:80], a, a), instance=inst)
+
+
+# ----------------------------------------------------------------------------
 # rule: evaluation routines do not reuse call-history state without looking at the data
 # ----------------------------------------------------------------------------
 META_ATTRS = {"shape", "strides", "ctypes", "data", "size", "dtype", "ndim", "nbytes", "flags", "base", "itemsize"}
@@ -1410,6 +1512,8 @@ def analyse(chk):
                          "live masks (a mask taken from an already clamped quantity is dead)")
     chk.rule("stateless", "evaluation routines do not reuse state written by an earlier call unless a test that "
                           "reads the array contents validates it")
+    chk.rule("param-dep", "every parameter (self.<p>, not an index) read by fill_feat_ is read by fill_deriv_ unless it "
+                          "is an additive constant of the value (canonical form: no term contains both p and a raw feature)")
     chk.rule("list-iter", "FeatureList pairs row i of y / dfdy with feat_list[i] and passes dfdx / x whole")
     chk.guard(rule_maps_structure, prog)
     chk.guard(rule_clamp, prog)
@@ -1419,6 +1523,7 @@ def analyse(chk):
     chk.guard(rule_sl_transpose, prog)
     chk.guard(rule_mask_symmetry, prog)
     chk.guard(rule_stateless, prog)
+    chk.guard(rule_param_dependence, prog)
     try:
         chk.count("map classes", len(registry_classes(prog.module(TD))))
     except core.AnalysisError:
@@ -1432,6 +1537,7 @@ def analyse(chk):
     chk.floor("sl-transpose", 8, "4 slmode branches x (rho, inh)")
     chk.floor("mask-sym", 4, "4 slmode branches")
     chk.floor("stateless", 12, "21 map classes + 4 normaliser classes")
+    chk.floor("param-dep", 10, "21 map classes")
     chk.floor("list-iter", 2, "__call__, fill_vals_, fill_derivs_")
     chk.assumptions += [
         "numeric literals are dimensionless; clamp literals, literal 0 and additive regularisers <= 1e-6 are unit-polymorphic",
@@ -1522,6 +1628,9 @@ def mutants(tree):
         M("reverse mode skips the dfdrho accumulation unless power > 0 (wrong for negative powers)", FN,
           "        dfdrho[:] += dfdxn * self.power * fac * x / rho\n",
           "        if self.power > 0:\n            dfdrho[:] += dfdxn * self.power * fac * x / rho\n", expect="transpose"),
+        M("ZMap value gets a constant prefactor the derivative does not know (scale moved out of fill_deriv_)", TD,
+          "            2\n            * dfdy\n            * self.scale\n            * self.gamma\n",
+          "            2\n            * dfdy\n            * self.gamma\n", expect="param-dep"),
         M("fill_vals_ writes every map into row 0", TD, "self.feat_list[i].fill_feat_(tdesc[i], xdesc)",
           "self.feat_list[i].fill_feat_(tdesc[0], xdesc)", count=2, expect="list-iter"),
     ]
